@@ -236,7 +236,21 @@ func (w *world) actPublish(t *rapid.T) {
 	}
 	// (b)(c)(d)(e): exactly the reference selection, in the reference order
 	if len(b.Body.Transactions) != len(want) {
-		t.Fatalf("publisher block has %d transactions, reference selection has %d\n got  %v\n want %v\n history:\n  %s", len(b.Body.Transactions), len(want), hashesOf(b.Body.Transactions), hashesOf(want), w.history())
+		detail := fmt.Sprintf("block size limit %d;", w.cfg.maxBlockSize)
+		for i := range want {
+			detail += fmt.Sprintf(" %s: size %d fee/KB %d;", shortHash(txref.TxnHash(&want[i])), txref.TxnSize(&want[i]), feePerKB(pub.m, &want[i]))
+		}
+		for i := range want {
+			detail += fmt.Sprintf(" in(%s)=%v out=%+v;", shortHash(txref.TxnHash(&want[i])), hashesHex(want[i].In), want[i].Out)
+		}
+		for i := range pool {
+			detail += fmt.Sprintf(" pool[%d]=%s;", i, shortHash(txref.TxnHash(&pool[i])))
+		}
+		for i := range want {
+			_, e := pub.v.CreateBlockFromTxns(coin.Transactions{want[i]}, when)
+			detail += fmt.Sprintf(" alone(%s)=%v;", shortHash(txref.TxnHash(&want[i])), e)
+		}
+		t.Fatalf("publisher block has %d transactions, reference selection has %d\n got  %v\n want %v\n %s\n history:\n  %s", len(b.Body.Transactions), len(want), hashesOf(b.Body.Transactions), hashesOf(want), detail, w.history())
 	}
 	for i := range want {
 		if txref.TxnHash(&b.Body.Transactions[i]) != txref.TxnHash(&want[i]) {
@@ -645,4 +659,12 @@ func (w *world) checkHours(t *rapid.T, n *node, sb coin.SignedBlock) {
 			w.stats["hours_with_accrual"]++
 		}
 	}
+}
+
+func hashesHex(hs []cipher.SHA256) []string {
+	out := make([]string, len(hs))
+	for i := range hs {
+		out[i] = shortHash(hs[i])
+	}
+	return out
 }
